@@ -21,8 +21,13 @@ Mirrors (src/pyramid):
 Inputs that are DATA (computed by the harness from the real objects; trusted base): the resolution order of
 `providedBy(exc)` and of `request_iface.combined`, `isinstance(exc, HTTPNotFound)`, the status of an exception that is
 a response, object identities (numbers given by the harness), everything C03's model takes as data.
-Not modelled: `containment` / `physical_path` predicates on exception views (their context is the exception object),
-exception views that touch `request.response`, `invoke_exception_view(secure=False / reraise=True / request=…)`.
+Second round: `Request.invoke_exception_view(exc_info, request, secure, reraise)` with all arguments (`invokeFull`; no `exc_info`
+⇒ `sys.exc_info()`; `secure=False` ⇒ the permission check is skipped; `reraise=True` ⇒ the original is raised whenever no
+response results), `Router.invoke_request` with raising sites ABOVE the excview tween (`invokeRequest`),
+`default_execution_policy` and the documented invoking policy (`executionPolicy`), exception views that make the request
+create a `response` (`Stmt.touch`), `containment` / `physical_path` on exception views (`excRequest`).
+Not modelled: view bodies raising `PredicateMismatch` (F-C14c), `__call_permissive__` skipping the predicates of a single
+protected view under `secure=False` (F-C14d), the lookup cache (C15).
 Core Lean only.
 -/
 import PyramidModel.ViewLookup
@@ -98,6 +103,8 @@ structure Stmt where
   exceptionOnly : Bool
   tag : Nat
   body : Body
+  /-- the body reads / mutates `request.response` (which makes the request create one) before it answers or raises -/
+  touch : Bool
 deriving Repr, DecidableEq
 
 /-- `register()` of `add_view`: the derived views and the classifier each is registered under, in the code's order -/
@@ -115,6 +122,11 @@ def bodyOf (stmts : List Stmt) (t : Nat) : Body :=
   match stmts.find? (·.tag = t) with
   | some s => s.body
   | none => .respond
+
+def touchOf (stmts : List Stmt) (t : Nat) : Bool :=
+  match stmts.find? (·.tag = t) with
+  | some s => s.touch
+  | none => false
 
 /-! ## `request.__dict__` restricted to the attributes the machinery touches; values are object identities -/
 
@@ -182,6 +194,8 @@ structure World where
   excMismatch : Exc
   /-- `HTTPForbidden` raised by a refusing protected exception view -/
   excForbidden : Exc
+  /-- identity of the response object the request creates when an exception view touches `request.response` -/
+  viewResponse : Nat
 deriving Repr, DecidableEq
 
 /-- `HTTPNotFound` and `PredicateMismatch` instances are `HTTPNotFound`s, `HTTPForbidden` is not (class hierarchy of
@@ -192,41 +206,75 @@ def World.ok (w : World) : Bool :=
 /-! ## `invoke_exception_view` -/
 
 /-- the request record of the exception-view lookup: context = the exception, request interface =
-`request_iface.combined`, view name `''` -/
+`request_iface.combined`, view name `''`.  Predicates get the exception as their `context` argument: `physical_path`
+looks at it (an exception has no `__name__`: never equal); `containment` prefers `request.context` — the ORIGINAL
+context — and falls back to the exception when the request has no `context` attribute (before traversal, or after
+`finish_request` popped it); `r.lineage = []` encodes "no `context` attribute". -/
 def excRequest (r : Request) (e : Exc) (combinedSro : List Nat) : Request :=
-  { r with reqSro := combinedSro, ctxSro := e.sro, viewName := "", lineage := [], physPath := none }
+  { r with reqSro := combinedSro, ctxSro := e.sro, viewName := "",
+           lineage := if r.lineage.isEmpty then [e.sro] else r.lineage, physPath := none }
 
 /-- `_call_view(registry, request, exc, providedBy(exc), '', view_classifier=IExceptionViewClassifier,
-request_iface=request_iface.combined)` and the body of the view found; `.ok none` = `_call_view` returned `None` -/
+request_iface=request_iface.combined)` and the body of the view found; `.ok none` = `_call_view` returned `None`.
+The dictionary returned is the request's after the body ran (it may have made the request create a `response`). -/
 def callExcView (w : World) (reg : Registry) (stmts : List Stmt) (r : Request) (e : Exc) (d : Dict) :
-    Option Seen × Except Exc (Option Resp) :=
+    Dict × Option Seen × Except Exc (Option Resp) :=
   match callView reg clsExc r with
   | .response t =>
     let seen : Seen := ⟨e.id, dget d "exception", dget d "exc_info", dget d "response"⟩
+    let d' := if touchOf stmts t then dset d "response" w.viewResponse else d
     match bodyOf stmts t with
-    | .respond => (some seen, .ok (some (.view t)))
-    | .returnContext => (some seen, .ok (some (.self e.id e.status)))
-    | .raise e2 => (some seen, .error e2.again)
-  | .forbidden _ => (none, .error w.excForbidden)
-  | .mismatch => (none, .error w.excMismatch)
-  | .none => (none, .ok none)
+    | .respond => (d', some seen, .ok (some (.view t)))
+    | .returnContext => (d', some seen, .ok (some (.self e.id e.status)))
+    | .raise e2 => (d', some seen, .error e2.again)
+  | .forbidden _ => (d, none, .error w.excForbidden)
+  | .mismatch => (d, none, .error w.excMismatch)
+  | .none => (d, none, .ok none)
 
-/-- `request.invoke_exception_view(exc_info)`; `r` is the record of `excRequest` -/
-def invokeExceptionView (w : World) (reg : Registry) (stmts : List Stmt) (r : Request) (e : Exc) (d : Dict) :
+/-- the body of `invoke_exception_view` once `exc_info`, `secure` have been resolved into `e` and the record `r`
+(`excRequest`); `reraise` as given -/
+def invokeCore (w : World) (reg : Registry) (stmts : List Stmt) (r : Request) (e : Exc) (d : Dict) (reraise : Bool) :
     Dict × Option Seen × Except Exc Resp :=
   -- with hide_attrs(request, 'response', 'exc_info', 'exception'):
   let (d1, saved) := popAll hidden d
   --   attrs['exception'] = exc; attrs['exc_info'] = exc_info
   let d2 := dset (dset d1 "exception" e.id) "exc_info" e.id
-  let (seen, res) := callExcView w reg stmts r e d2
+  let (d2', seen, res) := callExcView w reg stmts r e d2
   -- leaving the with-block (normally or by an exception)
-  let d3 := restore saved d2
+  let d3 := restore saved d2'
   match res with
-  | .error e2 => (d3, seen, .error e2)
-  | .ok none => (d3, seen, .error w.excNotFound)                 -- raise HTTPNotFound
+  | .error e2 => (d3, seen, .error (if reraise then e else e2))          -- except Exception: if reraise: reraise_(*exc_info); raise
+  | .ok none => (d3, seen, .error (if reraise then e else w.excNotFound)) -- if reraise: reraise_(*exc_info); raise HTTPNotFound
   | .ok (some resp) =>
     -- successful response, overwrite exception/exc_info
     (dset (dset d3 "exception" e.id) "exc_info" e.id, seen, .ok resp)
+
+/-- `request.invoke_exception_view(exc_info)` as `_error_handler` calls it (`secure=True`, `reraise=False`); `r` is the
+record of `excRequest` -/
+def invokeExceptionView (w : World) (reg : Registry) (stmts : List Stmt) (r : Request) (e : Exc) (d : Dict) :
+    Dict × Option Seen × Except Exc Resp :=
+  invokeCore w reg stmts r e d false
+
+/-- the arguments of `Request.invoke_exception_view(exc_info=None, request=None, secure=True, reraise=False)`
+(`request=` selects whose attribute dictionary is `d`) -/
+structure InvokeArgs where
+  /-- `exc_info`, identified by the exception in it; `none` = not given -/
+  excInfo : Option Exc
+  secure : Bool
+  reraise : Bool
+deriving Repr, DecidableEq
+
+/-- **`Request.invoke_exception_view`** with all its arguments.  `current` = the exception `sys.exc_info()` reports where
+the call is made (used only when `exc_info` is not given); `r` = the ORIGINAL request record.  `secure=False` makes
+`_call_view` use `__call_permissive__`: the permission check of a protected view is skipped — the same as a granting
+policy. -/
+def invokeFull (w : World) (reg : Registry) (stmts : List Stmt) (r : Request) (combinedSro : List Nat) (args : InvokeArgs)
+    (current : Exc) (d : Dict) : Dict × Option Seen × Except Exc Resp :=
+  let e := match args.excInfo with
+    | some x => x
+    | none => current                                  -- if exc_info is None: exc_info = sys.exc_info()
+  let r1 := if args.secure then r else { r with permitted := true }
+  invokeCore w reg stmts (excRequest r1 e combinedSro) e d args.reraise
 
 /-- `_error_handler(request, exc)` -/
 def errorHandler (w : World) (reg : Registry) (stmts : List Stmt) (r : Request) (e : Exc) (d : Dict) :
@@ -280,5 +328,45 @@ def excviewTween (w : World) (stmts : List Stmt) (site : Site) (r : Request) (co
   | .error e =>
     let (d', seen, out) := errorHandler w reg stmts (excRequest r e combinedSro) e d
     ⟨out, seen, d', some e⟩
+
+/-! ## above the excview tween: the rest of `invoke_request`, and the execution policy -/
+
+/-- raising sites ABOVE the excview tween -/
+structure Above where
+  /-- a tween placed over the excview tween raises before it calls its handler -/
+  before : Option Exc
+  /-- raised after a response left the excview tween: by the tween over it after its handler returned, by a response
+  callback, by a `NewResponse` subscriber -/
+  after : Option Exc
+deriving Repr, DecidableEq
+
+/-- `Router.invoke_request(request)`: the tween chain, response callbacks, `NewResponse`; nothing here catches -/
+def invokeRequest (w : World) (stmts : List Stmt) (above : Above) (site : Site) (r : Request) (combinedSro : List Nat)
+    (ctxObj : Nat) (d : Dict) : Result :=
+  match above.before with
+  | some e => ⟨.error e, none, d, none⟩
+  | none =>
+    let res := excviewTween w stmts site r combinedSro ctxObj d
+    match res.outcome, above.after with
+    | .ok _, some e => { res with outcome := .error e }
+    | _, _ => res
+
+inductive Policy where
+  /-- `default_execution_policy`: `with router.request_context(environ) as request: return router.invoke_request(request)` -/
+  | default
+  /-- the documented pattern: the same, wrapped in `try … except Exception: return request.invoke_exception_view(args)` -/
+  | invoking (args : InvokeArgs)
+deriving Repr, DecidableEq
+
+/-- the execution policy.  When it invokes the exception view itself, `finish_request` has already popped
+`request.context` (the record loses its lineage), and `sys.exc_info()` reports the exception being handled. -/
+def executionPolicy (p : Policy) (w : World) (stmts : List Stmt) (above : Above) (site : Site) (r : Request)
+    (combinedSro : List Nat) (ctxObj : Nat) (d : Dict) : Result :=
+  let res := invokeRequest w stmts above site r combinedSro ctxObj d
+  match p, res.outcome with
+  | .invoking args, .error x =>
+    let (d', seen, out) := invokeFull w (registerAll (allRegs w.sec stmts)) stmts { r with lineage := [] } combinedSro args x res.attrs
+    ⟨out, seen, d', some x⟩
+  | _, _ => res
 
 end Pyr.ExcView
